@@ -220,6 +220,14 @@
 (assert (hp Leaf))
 (assert (forall ((l Tree) (i Int) (r Tree))
   (! (= (hp (Node l i r)) (and (hp l) (hp r) (<= (rootPri l) (ipri i)) (<= (rootPri r) (ipri i)))) :pattern ((hp (Node l i r))))))
+; function values: codeOf(f) identifies the code a function value runs (function constants are their own
+; code; a closure value gets codeOf(ref) = id of its function when it is made); walkDir classifies the
+; three choice functions handed to Store.walk (0: always left, 1: always right, other: arbitrary)
+(declare-fun codeOf (Int) Int)
+(assert (forall ((f Int)) (! (=> (and (>= f 900000) (< f 1000000)) (= (codeOf f) f)) :pattern ((codeOf f)))))
+(declare-fun walkDir (Int) Int)
+;@spec codeOf smt=codeOf args=Int res=Int
+;@spec walkDir smt=walkDir args=Int res=Int
 ; LEMMA L1 (induction on t, DESIGN section 4): in a heap-ordered search tree no member outranks the root
 (assert (forall ((k Int) (t Tree)) (! (=> (and (hp t) (bst t) (mem k t)) (<= (ipri (itemAt k t)) (rootPri t))) :pattern ((hp t) (itemAt k t)))))
 ;@spec mem smt=mem args=Int,Tree res=Bool
